@@ -1185,7 +1185,7 @@ Lemma c_expr_no_routine e : supported mt e = true -> forallb not_routine (c_expr
 Proof.
   induction e as [l|m|x|r|g args|op a IHa b IHb|a IHa|a IHa|a IHa]; intros Hs; cbn [supported] in Hs; try discriminate.
   - destruct l; try discriminate; reflexivity.
-  - change (c_expr rt mt (EMacro m)) with [push_of (macro_param mt m)]. unfold macro_param. destruct (macro mt m); try discriminate; reflexivity.
+  - reflexivity.
   - reflexivity.
   - reflexivity.
   - apply andb_true_iff in Hs. destruct Hs as [Ha Hb].
